@@ -236,11 +236,126 @@ def _recognize(e, c, a):
         rest = as_sym(r.f[0].f[0])
         return Ok(Struct([rest, inp.sub(0, inp.n - rest.n)]))
     return p
+@lmodel('combinator::cut', 'cut')
+def _cut(e, c, a):
+    q = a[0]
+    def p(e_, args):
+        r = run(e, q, args[0])
+        if r.v == 'Err' and r.f[0].v == 'Error': return Err(Enum('Failure', list(r.f[0].f), 'Err'))
+        return r
+    return p
+@lmodel('combinator::peek', 'peek')
+def _peek(e, c, a):
+    q = a[0]
+    def p(e_, args):
+        r = run(e, q, args[0])
+        if r.v == 'Err': return r
+        return Ok(Struct([args[0], r.f[0].f[1]]))
+    return p
+@lmodel('combinator::not', 'nom::combinator::not')
+def _pnot(e, c, a):
+    q = a[0]
+    def p(e_, args):
+        r = run(e, q, args[0])
+        if r.v == 'Ok': return nerr(args[0])
+        if r.f[0].v == 'Error': return Ok(Struct([args[0], UNIT]))
+        return r
+    return p
+@lmodel('complete::char')
+def _char(e, c, a):
+    ch = a[0]
+    def p(e_, args):
+        inp = as_sym(args[0])
+        if inp.n < 1 or not e.branch(byte_eq(inp.at(0), ch)): return nerr(inp)
+        return Ok(Struct([inp.sub(1), ch]))
+    return p
+@lmodel('complete::alpha1')
+def _alpha1(e, c, a):
+    inp = as_sym(a[0]); i = while_class(e, inp, ALNUM[1:])
+    if i == 0: return nerr(inp)
+    return Ok(Struct([inp.sub(i), inp.sub(0, i)]))
+@lmodel('complete::digit1')
+def _digit1(e, c, a):
+    inp = as_sym(a[0]); i = while_class(e, inp, ALNUM[:1])
+    if i == 0: return nerr(inp)
+    return Ok(Struct([inp.sub(i), inp.sub(0, i)]))
+@lmodel('complete::space0')
+def _space0(e, c, a):
+    inp = as_sym(a[0]); i = while_class(e, inp, [(32, 32), (9, 9)])
+    return Ok(Struct([inp.sub(i), inp.sub(0, i)]))
+
+# ---- &str operations on symbolic content (UTF-8 aware: slicing inside a multi-byte character panics)
+def boundary(e, s, i):
+    """is byte offset i a char boundary of s?"""
+    if i == 0 or i == s.n: return True
+    if i > s.n: return False
+    b = s.at(i)
+    cont = z3.And(z3.UGE(b, 0x80), z3.ULE(b, 0xBF)) if is_sym(b) else (0x80 <= b <= 0xBF)
+    return not e.branch(cont)
+def sym_slice(e, s, lo, hi, checked):
+    if lo > hi or hi > s.n or not boundary(e, s, lo) or not boundary(e, s, hi):
+        if checked: return None
+        raise RustPanic('byte index is not a char boundary / out of range of the string')
+    return s.sub(lo, hi - lo)
+def range_bounds(e, c, r, n):
+    if 'RangeFull' in c or not getattr(r, 'f', None): return 0, n
+    if 'RangeToInclusive' in c: return 0, e.concretize(r.f[0]) + 1
+    if 'RangeTo' in c: return 0, e.concretize(r.f[0])
+    if 'RangeFrom' in c: return e.concretize(r.f[0]), n
+    if 'RangeInclusive' in c: return e.concretize(r.f[0]), e.concretize(r.f[1]) + 1
+    return e.concretize(r.f[0]), e.concretize(r.f[1])
+@lmodel('str::get')
+def _str_get(e, c, a):
+    s = as_sym(a[0]); lo, hi = range_bounds(e, c, a[1], s.n)
+    r = sym_slice(e, s, lo, hi, True)
+    return Some(r) if r is not None else NONE()
+@lmodel('str::is_char_boundary')
+def _is_cb(e, c, a): return boundary(e, as_sym(a[0]), e.concretize(a[1]))
+@lmodel('str::is_empty')
+def _s_is_empty(e, c, a): return as_sym(a[0]).n == 0
+@lmodel('str::as_bytes')
+def _as_bytes(e, c, a):
+    s = as_sym(a[0]); return SliceRef(s.b, s.start, s.n)
+@lmodel('str::starts_with')
+def _s_starts_with(e, c, a):
+    s = as_sym(a[0]); t = a[1]
+    if isinstance(t, int): return s.n >= 1 and e.branch(byte_eq(s.at(0), t))
+    t = as_sym(t)
+    if t.n > s.n: return False
+    return e.branch(e.and_all([byte_eq(s.at(i), t.at(i)) for i in range(t.n)]))
+@lmodel('str::split_at')
+def _s_split_at(e, c, a):
+    s = as_sym(a[0]); k = e.concretize(a[1])
+    l = sym_slice(e, s, 0, k, False)
+    return Struct([l, s.sub(k)])
+@lmodel('str::trim_start')
+def _trim_start(e, c, a):
+    s = as_sym(a[0]); i = while_class(e, s, SPACE); return s.sub(i)
 @lmodel('Parser::parse')
 def _parse(e, c, a): return run(e, a[0], a[1])
 
 def install(e):
     e.models.update(LOCAL)
+    from .models import M as STD
+    std_index = STD['*::index']; std_len = STD['str::len']
+    def index(e_, c, a):
+        v = a[0]
+        while isinstance(v, Ref): v = v.get()
+        if isinstance(v, StrBuf): v = v.s
+        if isinstance(v, SymStr) or (isinstance(v, str) and c.startswith('<str as')):
+            s = as_sym(v); lo, hi = range_bounds(e_, c, a[1], s.n)
+            return sym_slice(e_, s, lo, hi, False)
+        return std_index(e_, c, a)
+    index.model_name = '*::index'
+    e.models['*::index'] = index; e.models['*::index_mut'] = index
+    def slen(e_, c, a):
+        v = a[0]
+        while isinstance(v, Ref): v = v.get()
+        if isinstance(v, StrBuf): v = v.s
+        if isinstance(v, SymStr): return v.n
+        return std_len(e_, c, a)
+    slen.model_name = 'str::len'
+    e.models['str::len'] = slen; e.models['String::len'] = slen
     # string equality / conversion for symbolic &str
     old_eq = e.eq_vals
     def eq_vals(a, b):
